@@ -449,3 +449,122 @@ B("c20-benign-recheck-positive", "C20", "stats.go",
 			return storage
 		}
 		return newBucketStorage(htype, buckets)""")
+
+# ---------------------------------------------------------------- C19 multi reporter
+M("c19-skip-last-child", "C19", "multi/reporter.go",
+  """	for _, r := range r.reporters {
+		r.ReportGauge(name, tags, value)
+	}""", """	for _, r := range r.reporters[:len(r.reporters)-1] {
+		r.ReportGauge(name, tags, value)
+	}""", expect="O1 forwarder")
+M("c19-first-child-twice", "C19", "multi/reporter.go",
+  """	for _, r := range r.reporters {
+		r.ReportCounter(name, tags, value)
+	}""", """	if len(r.reporters) > 0 {
+		r.reporters[0].ReportCounter(name, tags, value)
+	}
+	for _, r := range r.reporters {
+		r.ReportCounter(name, tags, value)
+	}""", expect="O1 forwarder")
+M("c19-swapped-bounds", "C19", "multi/reporter.go",
+  """		r.ReportHistogramValueSamples(name, tags, buckets,
+			bucketLowerBound, bucketUpperBound, samples)""", """		r.ReportHistogramValueSamples(name, tags, buckets,
+			bucketUpperBound, bucketLowerBound, samples)""", expect="O1 forwarder")
+M("c19-break-after-first", "C19", "multi/reporter.go",
+  """	for _, r := range r {
+		r.Flush()
+	}""", """	for _, r := range r {
+		r.Flush()
+		break
+	}""", expect="O1 forwarder")
+M("c19-reverse-order", "C19", "multi/reporter.go",
+  """	for _, m := range m.timers {
+		m.ReportTimer(interval)
+	}""", """	for i := len(m.timers) - 1; i >= 0; i-- {
+		m.timers[i].ReportTimer(interval)
+	}""", expect="O1 forwarder")
+M("c19-value-modified", "C19", "multi/reporter.go",
+  """	for _, m := range m.counters {
+		m.ReportCount(value)
+	}""", """	for _, m := range m.counters {
+		m.ReportCount(value)
+		value = 0
+	}""", expect="O1 forwarder")
+M("c19-wrong-field", "C19", "multi/reporter.go",
+  "	return multiMetric{timers: metrics}", "	return multiMetric{timers: metrics[:0]}", expect="O2 field-agreement")
+M("c19-caps-or", "C19", "multi/reporter.go",
+  "		c.tagging = c.tagging && r.Capabilities().Tagging()", "		c.tagging = c.tagging || r.Capabilities().Tagging()", expect="O1 forwarder")
+M("c19-caps-init-false", "C19", "multi/reporter.go",
+  "	c := &capabilities{reporting: true, tagging: true}", "	c := &capabilities{reporting: true, tagging: false}", expect="caps-init")
+M("c19-flush-not-delegated", "C19", "multi/reporter.go",
+  """func (r *multiCached) Flush() {
+	r.multiBaseReporters.Flush()
+}""", """func (r *multiCached) Flush() {
+}""", expect="O1 delegation")
+M("c19-ctor-drops-first", "C19", "multi/reporter.go",
+  """	return &multi{
+		multiBaseReporters: baseReporters,
+		reporters:          r,
+	}""", """	return &multi{
+		multiBaseReporters: baseReporters,
+		reporters:          r[1:],
+	}""", expect="O1 constructor")
+M("c19-conditional-forward", "C19", "multi/reporter.go",
+  """	for _, m := range m.multi {
+		m.ReportSamples(value)
+	}""", """	for _, m := range m.multi {
+		if value > 0 {
+			m.ReportSamples(value)
+		}
+	}""", expect="O1 forwarder")
+B("c19-benign-index-loop", "C19", "multi/reporter.go",
+  """	for _, r := range r.reporters {
+		r.ReportGauge(name, tags, value)
+	}""", """	for i := range r.reporters {
+		r.reporters[i].ReportGauge(name, tags, value)
+	}""")
+B("c19-benign-classic-loop", "C19", "multi/reporter.go",
+  """	for _, m := range m.timers {
+		m.ReportTimer(interval)
+	}""", """	for i := 0; i < len(m.timers); i++ {
+		m.timers[i].ReportTimer(interval)
+	}""")
+
+# ---------------------------------------------------------------- C18 statsd
+M("c18-lower-infinity", "C18", "statsd/reporter.go",
+  """	if upperBound == -math.MaxFloat64 {
+		return "-infinity"
+	}""", """	if upperBound == -math.MaxFloat64 {
+		return "infinity"
+	}""", expect="O2 infinity-table")
+M("c18-duration-min-missing", "C18", "statsd/reporter.go",
+  """	if upperBound == time.Duration(math.MinInt64) {
+		return "-infinity"
+	}
+""", "", expect="O2 infinity-table")
+M("c18-swapped-bounds", "C18", "statsd/reporter.go",
+  """			r.valueBucketString(bucketLowerBound),
+			r.valueBucketString(bucketUpperBound)),""", """			r.valueBucketString(bucketUpperBound),
+			r.valueBucketString(bucketLowerBound)),""", expect="O1 one-call")
+M("c18-wrong-renderer", "C18", "statsd/reporter.go",
+  """			r.durationBucketString(bucketLowerBound),
+			r.durationBucketString(bucketUpperBound)),""", """			r.valueBucketString(float64(bucketLowerBound)),
+			r.durationBucketString(bucketUpperBound)),""", expect="O1 one-call")
+M("c18-gauge-as-inc", "C18", "statsd/reporter.go",
+  "	r.statter.Gauge(name, int64(value), r.sampleRate)", "	r.statter.Inc(name, int64(value), r.sampleRate)", expect="O1 one-call")
+M("c18-timer-twice", "C18", "statsd/reporter.go",
+  "	r.statter.TimingDuration(name, interval, r.sampleRate)", "	r.statter.TimingDuration(name, interval, r.sampleRate)\n	r.statter.TimingDuration(name, interval, r.sampleRate)", expect="O1 one-call")
+M("c18-counter-skip-zero", "C18", "statsd/reporter.go",
+  "	r.statter.Inc(name, value, r.sampleRate)\n}", "	if value > 1 {\n		r.statter.Inc(name, value, r.sampleRate)\n	}\n}", expect="O1 one-call")
+M("c18-rate-constant", "C18", "statsd/reporter.go",
+  "	r.statter.Inc(name, value, r.sampleRate)\n}", "	r.statter.Inc(name, value, 1.0)\n}", expect="O1 one-call")
+M("c18-format-changed", "C18", "statsd/reporter.go",
+  """		fmt.Sprintf("%s.%s-%s", name,
+			r.valueBucketString""", """		fmt.Sprintf("%s.%s_%s", name,
+			r.valueBucketString""", expect="O1 one-call")
+M("c18-tagging-true", "C18", "statsd/reporter.go",
+  "func (r *cactusStatsReporter) Tagging() bool {\n	return false", "func (r *cactusStatsReporter) Tagging() bool {\n	return true", expect="O3 capabilities")
+M("c18-rate-default-half", "C18", "statsd/reporter.go",
+  "		opts.SampleRate = 1.0", "		opts.SampleRate = 0.5", expect="O3 defaults")
+M("c18-fmt-e", "C18", "statsd/reporter.go",
+  """strconv.Itoa(int(opts.HistogramBucketNamePrecision)) + "f",""", """strconv.Itoa(int(opts.HistogramBucketNamePrecision)) + "e",""", expect="O3 defaults")
